@@ -482,3 +482,50 @@ def c05_l(ctx):
     if n < 2:
         raise AnchorMissing('expected the constructor and the context setter to name the pool, '
                             'found {} naming site(s)'.format(n))
+
+
+@obligation('C05-m', 'T11 T1', 'closing, flushing and deleting a pool reaches every store that has '
+            'the operation: `store.close()` / `store.flush()` run on the True side of '
+            '`hasattr(store, <that name>)`, inside a loop over all stores that is never left early',
+            floor=3,
+            necessary='"after every flush or close the file is a standard .npy file": a pool whose '
+                      'flush skips exactly the stores that can be flushed leaves their appended '
+                      'rows and headers unwritten, and a reopened pool differs from the run')
+def c05_m(ctx):
+    cls = ctx.cls(_POOL)
+    n = 0
+    for name in ('close', 'flush', 'delete'):
+        m = cls.lookup(name)
+        if m is None:
+            raise AnchorMissing('OutputPool.' + name)
+        ex = ctx.ex(m)
+        for c in ctx.calls(m):
+            if not (isinstance(c.func, ast.Attribute) and c.func.attr in ('close', 'flush') and
+                    not c.args):
+                continue
+            recv = ex.term(c.func.value)
+            if recv == ('param', 'self') or contains(recv, 'super()'):
+                continue
+            lo = enclosing_loop(c)
+            if lo is None:
+                continue
+            n += 1
+            it = ex.term(lo.iter, cfg_of(m).by_stmt[id(lo)])
+            over_all = match_any(it, ('self.stores.values()', 'list(self.stores.values())',
+                                      'self.stores.items()')) is not None
+            gs = [(t, pol) for (t, pol, _) in ctx.guards(m, c)]
+            has = [pol for (t, pol) in gs
+                   if match(t, pattern("hasattr(_s, '{}')".format(c.func.attr))) is not None]
+            wrong = [t for (t, pol) in gs if match(t, pattern('hasattr(_s, _n)')) is not None and
+                     match(t, pattern("hasattr(_s, '{}')".format(c.func.attr))) is None]
+            early = any(isinstance(x, (ast.Break, ast.Return)) for x in ast.walk(lo))
+            ok = over_all and all(has) and not wrong and not early
+            ctx.check(ok, m, 'store.{}() reaches every store that supports it'.format(c.func.attr),
+                      "for store in self.stores.values(): if hasattr(store, '{0}'): store.{0}()"
+                      .format(c.func.attr),
+                      '`{}` in {} is not run for every store that has the operation (negated or '
+                      'mismatched hasattr test, partial loop, or early exit)'.format(
+                          src(c)[:40], name), fn=m, node=c)
+    if n < 3:
+        raise AnchorMissing('expected store.close() / store.flush() loops in close, flush and '
+                            'delete of the pool, found {}'.format(n))
